@@ -2,7 +2,7 @@
 //@ append src/find/matchers/time.rs
 //@ module verif_enum_time
 //@ harness e_newer kind=enum props=C15 bound=<<reference mtime 1000 s + {0, 0.2 s, 0.999999999 s} x entry mtime = reference + {-1 s, -1 ns, 0, +1 ns, +0.3 s, +0.999999999 s, +1 s} on real files (timestamps read back from the file system)>> label=<<-newer F is true iff the entry's modification time is strictly later than F's, at full timestamp resolution>>
-//@ harness e_newer_xy kind=enum props=C15 bound=<<X, Y in {a, m} x reference (atime, mtime) and entry (atime, mtime) each from {1000.0, 1000.5, 1001.0} s on real files>> label=<<-newerXY F is true iff the entry's X timestamp is strictly later than F's Y timestamp>>
+//@ harness e_newer_xy kind=enum props=C15 bound=<<X, Y in {a, m} x reference (atime, mtime) and entry (atime, mtime) each from {1000.0, 1000.5, 1001.0, -1.3, -2.0} s relative to the epoch on real files>> label=<<-newerXY F is true iff the entry's X timestamp is strictly later than F's Y timestamp>>
 //@ harness e_newer_c kind=enum props=C15 bound=<<an entry's status-change time (as the file system set it) against a reference whose mtime is that time -1 s, -1 ns, exactly, +1 ns, +1 s; -newercm and -cnewer; and the reverse roles with -newermc>> label=<<the c timestamp takes part in -newerXY / -cnewer at full nanosecond resolution, like a and m>>
 //@ harness e_clock_fixed kind=enum props=C15 bound=<<two readings of the run's clock 20 ms apart>> label=<<'now' is fixed when find starts: every time test of a run sees the same instant>>
 //@ harness e_days kind=enum props=C15,C14 bound=<<timestamp fraction {0, 0.7 s} x age = k days + {-1 s, -1 ns, 0, +1 ns, +0.5 s, +86399 s} for k in 0..=2 (ages >= 0) x operands N, +N, -N for N in 0..=3 x mtime/atime>> label=<<-mtime/-atime N compare N with the number of complete 24-hour periods in now - timestamp, any fraction discarded>>
@@ -48,9 +48,10 @@ mod verif_enum_time {
     #[test] fn e_newer() { kani::explore(newer_body) }
 
     fn newer_xy_body() {
-        let ts = [at(1000, 0), at(1000, 500_000_000), at(1001, 0)];
+        // two instants before 1970 as well: 1.3 s and 2 s before the epoch
+        let ts = [at(1000, 0), at(1000, 500_000_000), at(1001, 0), UNIX_EPOCH - Duration::new(1, 300_000_000), UNIX_EPOCH - Duration::new(2, 0)];
         let (x, y) = (["a", "m"][pick(2)], ["a", "m"][pick(2)]);
-        let (ra, rm, ea, em) = (ts[pick(3)], ts[pick(3)], ts[pick(3)], ts[pick(3)]);
+        let (ra, rm, ea, em) = (ts[pick(5)], ts[pick(5)], ts[pick(5)], ts[pick(5)]);
         let d = scratch("xy");
         let (rf, ef) = (d.join("ref"), d.join("entry"));
         touch(&rf, ra, rm);
